@@ -3,7 +3,8 @@
    commits; specification: Mem/PagedSpec.v.  [U] = unbounded, proved for all inputs. *)
 From Coq Require Import ZArith List Bool.
 From Falcon Require Import Base.Res IL.Const Mem.PagedTypes Mem.Paged Mem.PagedSpec Mem.PagedCells
-     Mem.PagedProofs Mem.PagedLoad Mem.PagedStore Mem.C08Check Mem.PagedClone.
+     Mem.PagedProofs Mem.PagedLoad Mem.PagedStore Mem.C08Check Mem.PagedClone Mem.PagedHist Mem.PagedSim Mem.PagedExpr.
+From Falcon Require Import IL.Expr.
 Local Open Scope Z_scope.
 
 (* [U] the representation invariant holds after ANY sequence of stores and set_permissions issued
@@ -92,6 +93,54 @@ Theorem cells_store_refines : forall e c a v back, Inv c -> wfv v ->
             if (a <=? x) && (x <? a + vk v) then Some (bo e v (x - a)) else abs e back c x.
 Proof. exact store_refines. Qed.
 Print Assumptions cells_store_refines.
+
+(* [U] THE PROPERTY OVER HISTORIES.  After any sequence of stores (any width of k >= 1 bytes, any
+   overlap, any page crossing; stores of a bad width are rejected and change nothing) and
+   set_permissions calls issued through the API on a fresh memory, which runs without panicking
+   (no store range reaches 2^64), a load of n >= 1 bytes at any a with a + n <= 2^64 returns exactly
+   the bytes most recently stored at each address, falling back to the backing's bytes (byte_at over
+   the log of accepted stores), assembled in the memory's endianness, and None iff some byte was
+   never stored nor backed *)
+Theorem history_loads : forall e b ops (m : @mem const),
+  back_ok b -> Forall op_ok ops -> run (mnew e b) ops = Ok m ->
+  forall a n, 1 <= n -> 8 * n < 2^63 -> 0 <= a -> a + n <= 2^64 ->
+  load COps m a (8 * n) = Ok (load_spec e (byte_at e b (slog ops nil)) a n).
+Proof. exact history_loads_l. Qed.
+Print Assumptions history_loads.
+
+(* [U] permissions over histories: the most recent set_permissions whose range touches the page of x,
+   else the backing's; stores never matter (perm_at is silent only for a page named by an empty range) *)
+Theorem history_perms : forall e b ops (m : @mem const),
+  Forall op_ok_p ops -> run (mnew e b) ops = Ok m ->
+  forall x, 0 <= x -> match perm_at b (splog ops nil) x with Some r => permissions m x = r | None => True end.
+Proof. exact history_perms_l. Qed.
+Print Assumptions history_perms.
+
+(* [U] V = il::Expression (model EOps; statement about the DENOTATION of expressions, Rv x c :=
+   eval x = Ok c /\ same width): stores of related values keep an expression memory and a constant
+   memory related; every load from the expression memory denotes the load from the constant memory;
+   hence it evaluates to the specified bytes *)
+Theorem expr_store_sim : forall (me : @mem expr) (mc : @mem const) a x c,
+  Rmem_e me mc -> Rv x c -> Rres Rmem_e (Paged.store EOps me a x) (Paged.store COps mc a c).
+Proof. exact PagedExpr.expr_store_sim. Qed.
+Print Assumptions expr_store_sim.
+Theorem expr_load_sim : forall (me : @mem expr) (mc : @mem const) a bits,
+  Rmem_e me mc -> Rres (Ropt Rv) (load EOps me a bits) (load COps mc a bits).
+Proof. exact PagedExpr.expr_load_sim. Qed.
+Print Assumptions expr_load_sim.
+Theorem expr_abs_load : forall (me : @mem expr) (mc : @mem const) a n,
+  Rmem_e me mc -> InvM mc -> back_ok (m_back mc) -> 1 <= n -> 8 * n < 2^63 -> 0 <= a -> a + n <= 2^64 ->
+  match load_spec (m_end mc) (mabs mc) a n with
+  | Some c => exists x, load EOps me a (8 * n) = Ok (Some x) /\ eval x = Ok c /\ e_bits x = 8 * n
+  | None => load EOps me a (8 * n) = Ok None
+  end.
+Proof. exact expr_abs_load_l. Qed.
+Print Assumptions expr_abs_load.
+
+(* the open finding as a witness (outside the hypotheses above): a one-byte store at the last
+   address panics in an overflow-checked build although no byte of it wraps *)
+Example store_ending_at_top_panics : Paged.store COps (mnew LE None) (2^64 - 1) (mkc 8 1) = Panic.
+Proof. exact store_top_panics. Qed.
 
 (* the hypotheses are satisfiable: a fresh memory over any well-formed backing satisfies them *)
 Example fresh_memory_good : forall e, InvM (mnew e None : @mem const) /\ back_ok None.
